@@ -1,8 +1,96 @@
-import AlgoVerif.Model.LedgerCore
-namespace Props.C21
-open AlgoVerif.Model.LedgerCore
+/-
+C21 — Accounts never end a transaction group below minimum balance (modelled kinds: payments, closes, keyreg, asset
+create / opt-in / close-out / destroy; application and box counters are 0 in Model.LedgerCore).
 
-/-- placeholder while the pipeline is brought up; replaced by the property theorems -/
-theorem empty_group_noop (P : Params) (x : Ctx) (s : EvalState) : evalGroup P x s [] = .ok s := rfl
+`minBalance P a` IS the regenerated `Gen.Fees.MinBalance` (data/basics/userBalance.go:MinBalance, translated from the current
+tree on every run) applied to the account's own counters (`minbalance_is_gen`); `minbalance_formula` gives its closed form.
+`minbalance_post` quantifies over every parameter set, context, evaluator state and group.
+-/
+import AlgoVerif.Lemmas.LedgerCoreMinBal
+namespace Props.C21
+open AlgoVerif.Model.LedgerCore AlgoVerif.Lemmas.LedgerCore
+
+/-- the tie of the model's min-balance to the source: by definition the translated function on the account's counters -/
+theorem minbalance_is_gen (P : Params) (a : Account) :
+    minBalance P a = Gen.Fees.MinBalance P.reqs a.totalAssets ⟨0, 0⟩ 0 0 0 0 0 := rfl
+
+/-- `minbalance_formula`: for in-range consensus constants and counters the saturating eight-term sum is
+`MinBalance · (1 + TotalAssets)`, saturated at 2^64 − 1 (an unreachable balance). -/
+theorem minbalance_formula (P : Params) (a : Account)
+    (h1 : P.reqs.MinBalance < 2^64) (h2 : P.reqs.AppFlatParamsMinBalance < 2^64) (h3 : P.reqs.AppFlatOptInMinBalance < 2^64)
+    (h4 : P.reqs.BoxFlatMinBalance < 2^64) (h5 : P.reqs.BoxByteMinBalance < 2^64) (h6 : P.reqs.SchemaMinBalancePerEntry < 2^64)
+    (h7 : P.reqs.SchemaUintMinBalance < 2^64) (h8 : P.reqs.SchemaBytesMinBalance < 2^64) (hta : a.totalAssets < 2^64) :
+    minBalance P a = min (P.reqs.MinBalance * (1 + a.totalAssets)) (2^64 - 1) :=
+  minBalance_closed P.reqs a.totalAssets h1 h2 h3 h4 h5 h6 h7 h8 hta
+
+example : minBalance {} { totalAssets := 3 } = 400000 := by decide
+
+/-- what `checkMinBalance` guarantees for one account: fully closed (the zero record), or balance with pending rewards at
+least the min balance of ITS OWN post-state (and within `MaximumMinimumBalance` when that is set) -/
+abbrev MinBalOK := AlgoVerif.Lemmas.LedgerCore.MinBalOK
+
+/-- `minbalance_post`: after every accepted group, every account in the group's cumulative modified set other than fee sink,
+rewards pool and state-proof sender is empty-closed or holds at least the min balance of its post-state — read from the
+evaluator's state after the commit. -/
+theorem minbalance_post (P : Params) (x : Ctx) (s s' : EvalState) (g : List Txn) (hg : g ≠ [])
+    (h : evalGroup P x s g = .ok s') :
+    ∃ child, evalGroupChild P x s.top g = .ok child ∧
+      ∀ a ∈ modified child, exempt P a = false → MinBalOK P (acctOf x s'.top a) := by
+  obtain ⟨child, hc, rfl⟩ := evalGroup_ok hg h
+  refine ⟨child, hc, fun a ha he => ?_⟩
+  show MinBalOK P (acctOf x (commitToParent child s.top) a)
+  rw [acctOf_commit x child s.top (evalGroupChild_wf hc)]
+  exact evalGroupChild_checked hc a ha he
+
+/-- … and the modified set contains every account whose record the group changed: an account whose record differs after the
+group and is not exempt satisfies the post-condition. -/
+theorem minbalance_post_changed (P : Params) (x : Ctx) (s s' : EvalState) (g : List Txn)
+    (h : evalGroup P x s g = .ok s') (a : Addr) (hch : acctOf x s'.top a ≠ acctOf x s.top a) (he : exempt P a = false) :
+    MinBalOK P (acctOf x s'.top a) := by
+  cases g with
+  | nil => cases h; exact absurd rfl hch
+  | cons t r =>
+    obtain ⟨child, hc, hpost⟩ := minbalance_post P x s s' (t :: r) (by simp) h
+    obtain ⟨child', hc', rfl⟩ := evalGroup_ok (g := t :: r) (by simp) h
+    rw [hc] at hc'; cases hc'
+    by_cases hm : a ∈ modified child
+    · exact hpost a hm he
+    · exfalso
+      apply hch
+      show acctOf x (commitToParent child s.top) a = _
+      rw [acctOf_commit x child s.top (evalGroupChild_wf hc), acctOf_not_modified x s.top child a hm]
+
+/-- the check is applied after EVERY transaction to the cumulative modified set of the child (not only at the end) -/
+theorem minbalance_every_txn (P : Params) (x : Ctx) (l l' : Layer) (g : List Txn) (t : Txn)
+    (h : evalTxn P x l g t = .ok l') : ∀ a ∈ modified l', exempt P a = false → MinBalOK P (acctOf x l' a) :=
+  evalTxn_checked h
+
+/-- accounts modified by earlier members stay in the set -/
+theorem modified_monotone (P : Params) (x : Ctx) (l l' : Layer) (g : List Txn) (t : Txn)
+    (h : evalTxn P x l g t = .ok l') (a : Addr) (ha : a ∈ modified l) : a ∈ modified l' :=
+  modified_steps (evalTxn_steps h) ha
+
+/-- the exemptions are exactly the three special addresses -/
+theorem exempt_iff (P : Params) (a : Addr) : exempt P a = true ↔ a = P.feeSink ∨ a = P.rewardsPool ∨ a = P.spSender := by
+  simp [exempt, or_assoc]
+
+/-! ### non-vacuity: a payment that leaves the sender exactly at the min balance is accepted, one µAlgo more is rejected;
+the receiver (account 3, new) must reach the min balance as well -/
+
+def exBase : Base := { accts := [(1, { bal := 301000 }), (7, { status := .notPart, bal := 100000 })] }
+def exPay (amt : Nat) : Txn := { kind := .pay, sender := 1, fee := 1000, fv := 1, lv := 10, note := 1, receiver := 3, amount := amt }
+
+def okWith (r : Except GErr EvalState) (f : EvalState → Bool) : Bool :=
+  match r with
+  | .error _ => false
+  | .ok s => f s
+def failsWith (r : Except GErr EvalState) (e : GErr) : Bool :=
+  match r with
+  | .error e' => decide (e' = e)
+  | .ok _ => false
+
+example : okWith (evalGroup {} ⟨[], exBase⟩ {} [exPay 200000]) (fun s => (acctOf ⟨[], exBase⟩ s.top 1).bal == 100000) = true := by decide
+example : failsWith (evalGroup {} ⟨[], exBase⟩ {} [exPay 200001]) (.minBal, some 0) = true := by decide
+example : failsWith (evalGroup {} ⟨[], exBase⟩ {} [exPay 99999]) (.minBal, some 0) = true := by decide
 
 end Props.C21
